@@ -650,7 +650,8 @@ def _check_order(ctx):
         covers = False
         if loop is not None and consecutive and ivar:
             covers = _loop_covers(ctx, g, F, loop, n, ivar, a[1])
-        found[cmpf] = dict(node=n.ast, consecutive=consecutive, fail=fail, covers=covers, container=a[1] if a else None, loop=loop)
+        found[cmpf] = dict(node=n.ast, consecutive=consecutive, fail=fail, covers=covers, container=a[1] if a else None, loop=loop,
+                           unnormalised=(a is None or b is None))
     for fld, what in (('unix_time', 'instants'), ('civil_sec', 'civil seconds')):
         d = found.get(fld)
         if d is None:
@@ -658,7 +659,7 @@ def _check_order(ctx):
                     'no comparison of consecutive table entries by %s with a failing exit: the hint bracket and the '
                     'binary search are only decisive on a strictly ordered table' % fld, construct='order:%s' % fld)
             continue
-        ctx.check(d['consecutive'] and d['fail'] and d['covers'], 'C14-order',
+        ctx.check3(None if d.get('unnormalised') else (d['consecutive'] and d['fail'] and d['covers']), 'C14-order',
                   'strict order of %s checked at load' % what, d['node'],
                   'the order check does not compare every consecutive pair T[i-1], T[i] of the whole table with a '
                   'failing exit (consecutive=%s, failing exit=%s, covers all i=%s)' % (d['consecutive'], d['fail'], d['covers']),
